@@ -207,25 +207,37 @@ Qed.
 Lemma pos_lt : forall c s, cfg_ok c -> pos_of c s < spe c.
 Proof. intros c s [H _]. unfold pos_of. apply N.mod_lt. lia. Qed.
 
+(* successor in a division / remainder decomposition *)
+Lemma succ_divmod : forall m s, 1 <= m ->
+  (s mod m < m - 1 /\ (s + 1) / m = s / m /\ (s + 1) mod m = s mod m + 1) \/
+  (s mod m = m - 1 /\ (s + 1) / m = s / m + 1 /\ (s + 1) mod m = 0).
+Proof.
+  intros m s H.
+  assert (Hn : m <> 0) by lia.
+  pose proof (N.div_mod s m Hn) as D. pose proof (N.mod_lt s m Hn) as L.
+  set (q := s / m) in *. set (r := s mod m) in *.
+  destruct (N.eq_dec r (m - 1)) as [E|E].
+  - right. split; [exact E|].
+    assert (S1 : s + 1 = m * (q + 1) + 0) by nia.
+    rewrite <- (N.div_unique (s + 1) m (q + 1) 0) by lia.
+    rewrite <- (N.mod_unique (s + 1) m (q + 1) 0) by lia. lia.
+  - left. split; [lia|].
+    assert (S1 : s + 1 = m * q + (r + 1)) by nia.
+    rewrite <- (N.div_unique (s + 1) m q (r + 1)) by lia.
+    rewrite <- (N.mod_unique (s + 1) m q (r + 1)) by lia. lia.
+Qed.
+
 (* the slot after s: same epoch and next position, or position 0 of the next epoch *)
 Lemma succ_slot : forall c s, cfg_ok c ->
   (pos_of c s < spe c - 1 /\ epoch_of c (s + 1) = epoch_of c s /\ pos_of c (s + 1) = pos_of c s + 1) \/
   (pos_of c s = spe c - 1 /\ epoch_of c (s + 1) = epoch_of c s + 1 /\ pos_of c (s + 1) = 0).
-Proof.
-  intros c s [H _]. unfold pos_of, epoch_of.
-  assert (Hn : spe c <> 0) by lia.
-  pose proof (N.div_mod s (spe c) Hn) as D. pose proof (N.mod_lt s (spe c) Hn) as L.
-  set (q := s / spe c) in *. set (r := s mod spe c) in *.
-  destruct (N.eq_dec r (spe c - 1)) as [E|E].
-  - right. split; [exact E|].
-    assert (S1 : s + 1 = spe c * (q + 1) + 0) by nia.
-    rewrite <- (N.div_unique (s + 1) (spe c) (q + 1) 0) by lia.
-    rewrite <- (N.mod_unique (s + 1) (spe c) (q + 1) 0) by lia. lia.
-  - left. split; [lia|].
-    assert (S1 : s + 1 = spe c * q + (r + 1)) by nia.
-    rewrite <- (N.div_unique (s + 1) (spe c) q (r + 1)) by lia.
-    rewrite <- (N.mod_unique (s + 1) (spe c) q (r + 1)) by lia. lia.
-Qed.
+Proof. intros c s [H _]. unfold pos_of, epoch_of. apply succ_divmod. lia. Qed.
+
+(* the epoch after e: same period and next index, or index 0 of the next period *)
+Lemma succ_epoch : forall c e, cfg_ok c ->
+  (e mod epp c < epp c - 1 /\ period_of c (e + 1) = period_of c e /\ (e + 1) mod epp c = e mod epp c + 1) \/
+  (e mod epp c = epp c - 1 /\ period_of c (e + 1) = period_of c e + 1 /\ (e + 1) mod epp c = 0).
+Proof. intros c e [_ H]. unfold period_of. apply succ_divmod. lia. Qed.
 
 (* ---- the two store / trace relations the invariants are made of -------------------------------------- *)
 (* [f] is what Add does to a fetched duty before storing it (set_inc for the attester, identity else). *)
@@ -296,7 +308,9 @@ Qed.
 
 Lemma c_ok_set_other : forall f st H k ep a newl k',
   k <> k' -> c_ok f st H k' -> c_ok f (sset st k newl) (H ++ [OFetch k ep a]) k'.
-Proof. intros. eapply c_ok_fetch_other; eauto. now apply sget_sset_neq. Qed.
+Proof.
+  intros f st H k ep a newl k' Hn Hc. apply (c_ok_fetch_other f st); auto. now apply sget_sset_neq.
+Qed.
 
 Lemma incl_map_id : forall (l m : list duty), incl (map (fun d => d) l) m <-> incl l m.
 Proof. intros. now rewrite map_id. Qed.
@@ -307,7 +321,7 @@ Proof.
   induction a as [|x tl IH]; simpl; intros b Ha Hb Hd; auto.
   inversion Ha; subst. constructor.
   - intros Hin. apply in_app_or in Hin. destruct Hin; [contradiction|]. eapply Hd; eauto.
-  - apply IH; auto. intros y H1 H2. eapply Hd; eauto.
+  - apply IH; auto. intros y Hy1 Hy2. eapply Hd; eauto.
 Qed.
 
 (* ---- at most once, for any machine whose steps have the record shape ---------------------------------- *)
@@ -371,3 +385,140 @@ Section AtMostOnce.
       + destruct Sh as [-> [-> ->]]. simpl. eapply IH; eauto.
   Qed.
 End AtMostOnce.
+
+(* ---- stores whose duty lists name each duty once -------------------------------------------------------- *)
+
+Definition store_nodup (bs : bool) (st : store) : Prop :=
+  forall k, NoDup (map (duty_key bs) (sget st k)).
+
+Lemma store_nodup_nil : forall bs, store_nodup bs [].
+Proof. intros bs k. constructor. Qed.
+
+Lemma store_nodup_set : forall bs st k l,
+  store_nodup bs st -> NoDup (map (duty_key bs) l) -> store_nodup bs (sset st k l).
+Proof. intros bs st k l H Hl k'. rewrite sget_sset. destruct (N.eqb k k'); auto. Qed.
+
+Lemma store_nodup_reset : forall bs st k, store_nodup bs st -> store_nodup bs (sreset st k).
+Proof. intros. apply store_nodup_set; auto. constructor. Qed.
+
+Lemma nodup_vidx_filter_slot : forall (P : duty -> bool) s l,
+  NoDup (map (duty_key true) l) -> (forall d, P d = true -> d_slot d = s) ->
+  NoDup (map d_vidx (filter P l)).
+Proof.
+  induction l as [|x tl IH]; simpl; intros Hn HP; [constructor|].
+  inversion Hn as [|? ? Hx Ht]; subst. destruct (P x) eqn:Px; simpl; [|auto].
+  constructor; [|auto]. intros Hin. apply in_map_iff in Hin. destruct Hin as [y [Ev Hy]].
+  apply filter_In in Hy. destruct Hy as [Hy Py]. apply Hx.
+  apply in_map_iff. exists y. split; auto. unfold duty_key. rewrite Ev, (HP _ Py), (HP _ Px). reflexivity.
+Qed.
+
+Lemma nodup_vidx_filter : forall (P : duty -> bool) l,
+  NoDup (map (duty_key false) l) -> NoDup (map d_vidx (filter P l)).
+Proof.
+  induction l as [|x tl IH]; simpl; intros Hn; [constructor|].
+  inversion Hn as [|? ? Hx Ht]; subst. destruct (P x) eqn:Px; simpl; [|auto].
+  constructor; [|auto]. intros Hin. apply in_map_iff in Hin. destruct Hin as [y [Ev Hy]].
+  apply filter_In in Hy. destruct Hy as [Hy Py]. apply Hx.
+  apply in_map_iff. exists y. split; auto. unfold duty_key. now rewrite Ev.
+Qed.
+
+Lemma dispatch_keys_map1 : forall r s l,
+  dispatch_keys (map (fun d => ODispatch r s (d_vidx d) (d_tag d)) l) = map (fun d => (r, s, d_vidx d)) l.
+Proof. induction l as [|x tl IH]; simpl; [reflexivity|now rewrite IH]. Qed.
+
+Lemma nodup_dispatch1 : forall r s l, NoDup (map d_vidx l) ->
+  NoDup (dispatch_keys (map (fun d => ODispatch r s (d_vidx d) (d_tag d)) l)).
+Proof.
+  intros r s l H. rewrite dispatch_keys_map1.
+  induction l as [|x tl IH]; simpl in *; [constructor|]. inversion H; subst.
+  constructor; auto. intros Hin. apply in_map_iff in Hin. destruct Hin as [y [Ey Hy]].
+  inversion Ey. apply H2. apply in_map_iff. eauto.
+Qed.
+
+Lemma nodup_dispatch2 : forall r1 r2 s l, r1 <> r2 -> NoDup (map d_vidx l) ->
+  NoDup (dispatch_keys (flat_map (dispatch2 r1 r2 s) l)).
+Proof.
+  intros r1 r2 s l Hr H.
+  assert (K : forall l k, In k (dispatch_keys (flat_map (dispatch2 r1 r2 s) l)) ->
+                          In (snd k) (map d_vidx l)).
+  { induction l0 as [|x tl IH]; simpl; intros k Hk; [tauto|].
+    destruct Hk as [<-|[<-|Hk]]; simpl; auto. }
+  induction l as [|x tl IH]; simpl in *; [constructor|]. inversion H; subst.
+  constructor.
+  - intros [E|Hin]; [inversion E; congruence|]. apply K in Hin. simpl in Hin. contradiction.
+  - constructor; auto. intros Hin. apply K in Hin. simpl in Hin. contradiction.
+Qed.
+
+Lemma forallb_is_dispatch_map1 : forall r s (l : list duty),
+  forallb is_dispatch (map (fun d => ODispatch r s (d_vidx d) (d_tag d)) l) = true.
+Proof. induction l; simpl; auto. Qed.
+
+Lemma forallb_is_dispatch_flat2 : forall r1 r2 s (l : list duty),
+  forallb is_dispatch (flat_map (dispatch2 r1 r2 s) l) = true.
+Proof. induction l; simpl; auto. Qed.
+
+(* ---- honest runs: induction principle shared by the three handlers ------------------------------------- *)
+
+Section HonestRun.
+  Variable S : Type.
+  Variable step : S -> event -> S * out.
+  Variable Inv : option N -> S -> list obs -> Prop.   (* indexed by the slot of the next tick *)
+  Variable bs : bool.
+  Variable now0 : N.
+  Variable P : list obs -> N -> N -> list obs -> list obs -> Prop.
+  Hypothesis tick_ok : forall n st H s now ac an st' pre disp post,
+    Inv n st H -> match n with None => now0 <= s | Some n0 => n0 = s end ->
+    answer_ok bs ac -> answer_ok bs an ->
+    step st (Tick s now ac an) = (st', (pre, disp, post)) ->
+    Inv (Some (s + 1)) st' (H ++ pre ++ disp ++ post) /\ P H s now pre disp.
+  Hypothesis event_ok : forall n st H ev st' o,
+    Inv n st H -> is_tick ev = false ->
+    match n with None => True | Some n0 => event_slot ev + 1 = n0 \/ event_slot ev = n0 end ->
+    step st ev = (st', o) -> Inv n st' (H ++ flat_out o).
+
+  Lemma honest_run : forall evs last st H st' recs,
+    Inv (option_map (fun t => t + 1) last) st H ->
+    honest_from bs now0 last evs -> run step st evs = (st', recs) ->
+    for_all_ticks H recs P.
+  Proof.
+    unfold for_all_ticks.
+    induction evs as [|ev tl IH]; simpl; intros last st H st' recs Hi Hh R.
+    - inversion R; subst. intros before ? ? ? ? ? ? ? ? Q. destruct before; inversion Q.
+    - destruct (step st ev) as [st1 o] eqn:E. destruct (run step st1 tl) as [st2 os] eqn:E2.
+      inversion R; subst. clear R.
+      assert (Next : forall last1, Inv (option_map (fun t => t + 1) last1) st1 (H ++ flat_out o) ->
+                honest_from bs now0 last1 tl ->
+                forall before s now ac an pre disp post after,
+                  (ev, o) :: os = ((ev, o) :: before) ++ (Tick s now ac an, (pre, disp, post)) :: after ->
+                  P (H ++ trace_of ((ev, o) :: before)) s now pre disp).
+      { intros last1 Hi1 Hh1 before s now ac an pre disp post after Q. inversion Q as [Q1].
+        pose proof (IH _ _ _ _ _ Hi1 Hh1 E2 _ _ _ _ _ _ _ _ _ Q1) as X.
+        unfold trace_of in *. simpl. rewrite app_assoc. exact X. }
+      destruct ev as [s now ac an|r p cu|r].
+      + destruct Hh as [Hs [Ha1 [Ha2 Hh]]]. destruct o as [[pre disp] post].
+        assert (Hs' : match option_map (fun t => t + 1) last with None => now0 <= s | Some n0 => n0 = s end)
+          by (destruct last; simpl; auto).
+        destruct (tick_ok _ _ _ _ _ _ _ _ _ _ _ Hi Hs' Ha1 Ha2 E) as [Hi1 HP].
+        intros [|r0 before] s0 now0' ac0 an0 pre0 disp0 post0 after Q.
+        * inversion Q; subst. simpl. rewrite app_nil_r. exact HP.
+        * inversion Q; subst. eapply (Next (Some s)); eauto.
+      + destruct Hh as [Hs Hh].
+        assert (Hi1 : Inv (option_map (fun t => t + 1) last) st1 (H ++ flat_out o)).
+        { assert (Hslot : match option_map (fun t => t + 1) last with
+                          | None => True | Some n0 => r + 1 = n0 \/ r = n0 end).
+          { clear -Hs. destruct last as [t|]; simpl in *; auto. destruct Hs; [left|right]; lia. }
+          apply (fun a b => event_ok _ _ _ _ _ _ Hi a b E); [reflexivity|exact Hslot]. }
+        intros [|r0 before] s0 now0' ac0 an0 pre0 disp0 post0 after Q.
+        * inversion Q.
+        * inversion Q; subst. eapply (Next last); eauto.
+      + destruct Hh as [Hs Hh].
+        assert (Hi1 : Inv (option_map (fun t => t + 1) last) st1 (H ++ flat_out o)).
+        { assert (Hslot : match option_map (fun t => t + 1) last with
+                          | None => True | Some n0 => r + 1 = n0 \/ r = n0 end).
+          { clear -Hs. destruct last as [t|]; simpl in *; auto. destruct Hs; [left|right]; lia. }
+          apply (fun a b => event_ok _ _ _ _ _ _ Hi a b E); [reflexivity|exact Hslot]. }
+        intros [|r0 before] s0 now0' ac0 an0 pre0 disp0 post0 after Q.
+        * inversion Q.
+        * inversion Q; subst. eapply (Next last); eauto.
+  Qed.
+End HonestRun.
